@@ -7,7 +7,7 @@
            little theorem (mc/NtFacts.v, MathComp) — and the round-trip theorems. *)
 From Coq Require Import ZArith Znumtheory Zpow_facts List Bool Lia Setoid Morphisms.
 From Coq Require Import ZifyBool.
-Require Import V.base.Fld V.base.ZpField V.model.CurveParams V.model.Curve V.model.PointCodec.
+Require Import V.base.Fld V.base.ZpField V.model.CurveParams V.model.Curve V.gen.CodecConsts V.model.PointCodec.
 Import ListNotations.
 Local Open Scope Z_scope.
 
@@ -121,7 +121,7 @@ Proof.
   apply Z.eqb_eq. unfold wc_rhs, wc_p in E. unfold_m. rewrite E. zmod.
 Qed.
 
-Lemma ts_sqrt_sound p e rou v s : ts_sqrt p e rou v = Some s -> mulm p s s = v mod p.
+Lemma ts_sqrt_sound p e g rou v s : ts_sqrt p e g rou v = Some s -> mulm p s s = v mod p.
 Proof.
   unfold ts_sqrt. cbv zeta.
   match goal with |- (if ?b then _ else _) = _ -> _ => destruct b eqn:E end; [|discriminate].
@@ -278,7 +278,7 @@ Proof.
   set (p := ec_p c) in *. set (a := ep_a (ec c)). set (d := ep_d (ec c)).
   set (den := subm p a (mulm p d (mulm p y y))).
   destruct (den =? 0) eqn:Ed; [discriminate|]. apply Z.eqb_neq in Ed.
-  destruct (ts_sqrt p (ec_e c) (ec_rou c) _) as [x|] eqn:Es; [|discriminate].
+  destruct (ts_sqrt p (ec_e c) (ec_g c) (ec_rou c) _) as [x|] eqn:Es; [|discriminate].
   intros [= <-]. split; [reflexivity|].
   apply ts_sqrt_sound in Es.
   assert (Hden : 0 < den < p).
@@ -613,15 +613,25 @@ Qed.
 
 (* ---- Tonelli–Shanks as coded is complete ------------------------------------------------------- *)
 
+Lemma p_odd_of_ts p e g : (1 <= e)%nat -> p - 1 = 2 ^ Z.of_nat e * (2 * g + 1) -> p mod 2 = 1.
+Proof.
+  intros He Hm. destruct e as [|k]; [lia|].
+  assert (H : p - 1 = 2 * (2 ^ Z.of_nat k * (2 * g + 1))).
+  { rewrite Hm at 1. rewrite Nat2Z.inj_succ, Z.pow_succ_r by lia. ring. }
+  set (N := 2 ^ Z.of_nat k * _) in H.
+  replace p with (1 + N * 2) by lia. rewrite Z_mod_plus_full. reflexivity.
+Qed.
+
 Section TonelliShanks.
   Variable p : Z.
   Variable e : nat.
+  Variable g : Z.
   Variable rou : Z.
   Hypothesis Hp : prime p.
   (* p - 1 = 2^e * m with m = 2g+1 odd, g the progenitor exponent — checked per curve *)
   Hypothesis He : (1 <= e)%nat.
-  Hypothesis Hm : p - 1 = 2 ^ Z.of_nat e * (2 * ts_progenitor p e + 1).
-  Hypothesis Hg : 0 <= ts_progenitor p e.
+  Hypothesis Hm : p - 1 = 2 ^ Z.of_nat e * (2 * g + 1).
+  Hypothesis Hg : 0 <= g.
   (* rou is a primitive 2^e-th root of unity: rou^(2^(e-1)) = -1 — checked per curve *)
   Hypothesis Hrou_c : sq_iter p (e - 1) rou = p - 1.
 
@@ -630,7 +640,7 @@ Section TonelliShanks.
   Lemma ts_p_odd : 3 <= p.
   Proof.
     destruct e as [|k]; [lia|].
-    assert (H : p - 1 = 2 * (2 ^ Z.of_nat k * (2 * ts_progenitor p (S k) + 1))).
+    assert (H : p - 1 = 2 * (2 ^ Z.of_nat k * (2 * g + 1))).
     { rewrite Hm at 1. rewrite Nat2Z.inj_succ, Z.pow_succ_r by lia. ring. }
     set (N := 2 ^ Z.of_nat k * _) in H. lia.
   Qed.
@@ -644,7 +654,7 @@ Section TonelliShanks.
   Lemma ts_p_odd2 : p mod 2 = 1.
   Proof.
     destruct e as [|k]; [lia|].
-    assert (H : p - 1 = 2 * (2 ^ Z.of_nat k * (2 * ts_progenitor p (S k) + 1))).
+    assert (H : p - 1 = 2 * (2 ^ Z.of_nat k * (2 * g + 1))).
     { rewrite Hm at 1. rewrite Nat2Z.inj_succ, Z.pow_succ_r by lia. ring. }
     set (N := 2 ^ Z.of_nat k * _) in H.
     replace p with (1 + N * 2) by lia. rewrite Z_mod_plus_full. reflexivity.
@@ -700,11 +710,11 @@ Section TonelliShanks.
   Qed.
 
   Theorem ts_sqrt_complete w :
-    0 <= w < p -> exists s, ts_sqrt p e rou (mulm p w w) = Some s.
+    0 <= w < p -> exists s, ts_sqrt p e g rou (mulm p w w) = Some s.
   Proof.
-    intros Hw. set (v := mulm p w w). set (g := ts_progenitor p e) in *.
+    intros Hw. set (v := mulm p w w).
     assert (Hv : 0 <= v < p) by (unfold v, mulm; apply Z.mod_pos_bound; lia).
-    unfold ts_sqrt. cbv zeta. fold g.
+    unfold ts_sqrt. cbv zeta.
     set (y := zp_pow p v g). set (s := mulm p y v). set (t := mulm p s y).
     set (r := ts_loop p e s t rou).
     assert (R : eqm p (r * r) v).
@@ -733,7 +743,7 @@ Section TonelliShanks.
           rewrite (pow_eqm p _ _ _ ltac:(lia) Hvw).
           rewrite <- Z.pow_2_r, <- Z.pow_mul_r by (try apply Z.mul_nonneg_nonneg; try apply Z.pow_nonneg; lia).
           replace (2 * ((2 * g + 1) * 2 ^ Z.of_nat k)) with (p - 1).
-          2:{ rewrite Hm. fold g. rewrite Ek at 1. rewrite Nat2Z.inj_succ, Z.pow_succ_r by lia. ring. }
+          2:{ rewrite Hm. rewrite Ek at 1. rewrite Nat2Z.inj_succ, Z.pow_succ_r by lia. ring. }
           unfold eqm. rewrite Z_fermat; [symmetry; apply one_mod; lia|exact Hp|].
           apply Zgcd_1_rel_prime. apply rel_prime_le_prime; [exact Hp|lia].
         + exact Hrou. }
@@ -762,7 +772,7 @@ Proof.
   apply IH. destruct (_ =? _); [exact Hs|]. unfold mulm. apply Z.mod_pos_bound. lia.
 Qed.
 
-Lemma ts_sqrt_range p e rou v s : 0 < p -> ts_sqrt p e rou v = Some s -> 0 <= s < p.
+Lemma ts_sqrt_range p e g rou v s : 0 < p -> ts_sqrt p e g rou v = Some s -> 0 <= s < p.
 Proof.
   intros Hp. unfold ts_sqrt. cbv zeta.
   match goal with |- (if ?b then _ else _) = _ -> _ => destruct b end; [|discriminate].
@@ -804,8 +814,8 @@ Qed.
 Record wcodec_ok (c : wcodec) : Prop := mk_wcodec_ok {
   ok_prime : prime (wc_p c);
   ok_e : (1 <= wc_e c)%nat;
-  ok_m : wc_p c - 1 = 2 ^ Z.of_nat (wc_e c) * (2 * ts_progenitor (wc_p c) (wc_e c) + 1);
-  ok_g : 0 <= ts_progenitor (wc_p c) (wc_e c);
+  ok_m : wc_p c - 1 = 2 ^ Z.of_nat (wc_e c) * (2 * wc_g c + 1);
+  ok_g : 0 <= wc_g c;
   ok_rou : sq_iter (wc_p c) (wc_e c - 1) (wc_rou c) = wc_p c - 1;
   ok_len : wc_p c <= 256 ^ Z.of_nat (wc_len c)
 }.
@@ -819,7 +829,7 @@ Section WRoundTrip.
   Let p := wc_p c.
   Let Hp : prime p := ok_prime c OK.
   Let Hp2 : 2 <= p := prime_ge_2 _ Hp.
-  Let Hodd : p mod 2 = 1 := ts_p_odd2 p (wc_e c) (wc_rou c) (ok_e c OK) (ok_m c OK) (ok_g c OK) (ok_rou c OK).
+  Let Hodd : p mod 2 = 1 := p_odd_of_ts p (wc_e c) (wc_g c) (ok_e c OK) (ok_m c OK).
 
   Lemma on_curve_rhs x y : w_on_curve (wc c) (Some (x, y)) = true -> wc_rhs c x = mulm p y y.
   Proof.
@@ -832,10 +842,10 @@ Section WRoundTrip.
     w_from_x c x (y mod 2) = Some (Some (x, y)).
   Proof.
     intros Hc Hy. unfold w_from_x. rewrite (on_curve_rhs x y Hc).
-    destruct (ts_sqrt_complete p (wc_e c) (wc_rou c) Hp (ok_e c OK) (ok_m c OK) (ok_g c OK) (ok_rou c OK) y Hy)
+    destruct (ts_sqrt_complete p (wc_e c) (wc_g c) (wc_rou c) Hp (ok_e c OK) (ok_m c OK) (ok_g c OK) (ok_rou c OK) y Hy)
       as [s Hs].
     unfold wc_sqrt. fold p. rewrite Hs.
-    assert (Hp0 : 0 < p) by lia. pose proof (ts_sqrt_range p _ _ _ _ Hp0 Hs) as Hr.
+    assert (Hp0 : 0 < p) by lia. pose proof (ts_sqrt_range p _ _ _ _ _ Hp0 Hs) as Hr.
     apply ts_sqrt_sound in Hs.
     assert (E : eqm p (s * s) (y * y)).
     { unfold eqm. unfold mulm in Hs. rewrite Hs. apply Zmod_mod. }
@@ -934,7 +944,7 @@ Lemma no_point_x0 c y : wcodec_ok c ->
   0 <= y < wc_p c -> w_on_curve (wc c) (Some (0, y)) = true -> False.
 Proof.
   intros OK He Hy Hc. pose proof (ok_prime c OK) as Hp. pose proof (prime_ge_2 _ Hp) as Hp2.
-  pose proof (ts_p_odd2 _ _ _ (ok_e c OK) (ok_m c OK) (ok_g c OK) (ok_rou c OK)) as Hodd.
+  pose proof (p_odd_of_ts _ _ _ (ok_e c OK) (ok_m c OK)) as Hodd.
   set (p := wc_p c) in *. set (b := wp_b (wc c)) in *.
   assert (Hh : 0 <= (p - 1) / 2) by (apply Z.div_pos; lia).
   unfold euler in He. rewrite zp_pow_spec in He by lia.
@@ -1048,8 +1058,8 @@ Qed.
 Record ecodec_ok (c : ecodec) : Prop := mk_ecodec_ok {
   eok_prime : prime (ec_p c);
   eok_e : (1 <= ec_e c)%nat;
-  eok_m : ec_p c - 1 = 2 ^ Z.of_nat (ec_e c) * (2 * ts_progenitor (ec_p c) (ec_e c) + 1);
-  eok_g : 0 <= ts_progenitor (ec_p c) (ec_e c);
+  eok_m : ec_p c - 1 = 2 ^ Z.of_nat (ec_e c) * (2 * ec_g c + 1);
+  eok_g : 0 <= ec_g c;
   eok_rou : sq_iter (ec_p c) (ec_e c - 1) (ec_rou c) = ec_p c - 1;
   eok_len1 : (1 <= ec_len c)%nat;
   eok_top : ec_p c <= e_top c;
@@ -1068,7 +1078,7 @@ Section ERoundTrip.
   Let Hp : prime p := eok_prime c OK.
   Let Hp2 : 2 <= p := prime_ge_2 _ Hp.
   Let Hodd : p mod 2 = 1 :=
-    ts_p_odd2 p (ec_e c) (ec_rou c) (eok_e c OK) (eok_m c OK) (eok_g c OK) (eok_rou c OK).
+    p_odd_of_ts p (ec_e c) (ec_g c) (eok_e c OK) (eok_m c OK).
 
   Lemma e_curve_eq x y : e_on_curve (ec c) (x, y) = true ->
     eqm p (x * x * (a - d * (y * y))) (1 - y * y).
@@ -1111,11 +1121,11 @@ Section ERoundTrip.
         replace (x * x * den * zp_inv p den) with (x * x * (den * zp_inv p den)) by ring.
         rewrite Hi'. apply eqm_refl_eq. ring. }
       rewrite V.
-      destruct (ts_sqrt_complete p (ec_e c) (ec_rou c) Hp (eok_e c OK) (eok_m c OK) (eok_g c OK) (eok_rou c OK) x Hx)
+      destruct (ts_sqrt_complete p (ec_e c) (ec_g c) (ec_rou c) Hp (eok_e c OK) (eok_m c OK) (eok_g c OK) (eok_rou c OK) x Hx)
         as [s Hs].
       rewrite Hs. exists s. split; [reflexivity|].
       assert (Hp0 : 0 < p) by lia.
-      pose proof (ts_sqrt_range p _ _ _ _ Hp0 Hs) as Hr. apply ts_sqrt_sound in Hs.
+      pose proof (ts_sqrt_range p _ _ _ _ _ Hp0 Hs) as Hr. apply ts_sqrt_sound in Hs.
       apply prime_sq_eq; try assumption.
       unfold eqm. unfold mulm in Hs. rewrite Hs. apply Zmod_mod.
   Qed.
@@ -1191,6 +1201,15 @@ Ltac codec_ok Hp :=
   | vm_compute; discriminate
   | vm_compute; reflexivity
   | vm_compute; discriminate ].
+
+(* the regenerated field constants are those of the curve parameters the model uses *)
+Lemma codec_consts_tie :
+  k256_fp_modulus = wp_p k256_params /\ p256_fp_modulus = wp_p p256_params /\
+  pallas_fp_modulus = wp_p pallas_params /\ vesta_fp_modulus = wp_p vesta_params /\
+  bls12381_fp_modulus = bls12381_p /\ ed25519_fp_modulus = ep_p ed25519_params /\
+  k256_fp_bytes = 32%nat /\ p256_fp_bytes = 32%nat /\ pallas_fp_bytes = 32%nat /\
+  vesta_fp_bytes = 32%nat /\ bls12381_fp_bytes = 48%nat /\ ed25519_fp_bytes = 32%nat.
+Proof. repeat apply conj; reflexivity. Qed.
 
 Lemma k256_codec_ok : prime (wp_p k256_params) -> wcodec_ok k256_codec.
 Proof. intros Hp. codec_ok Hp. Qed.
@@ -1339,18 +1358,18 @@ Section BlsRoundTrip.
   Let p := wc_p c.
   Let Hp2 : 2 <= p := prime_ge_2 _ (ok_prime c OK).
   Let Hodd : p mod 2 = 1 :=
-    ts_p_odd2 p (wc_e c) (wc_rou c) (ok_e c OK) (ok_m c OK) (ok_g c OK) (ok_rou c OK).
+    p_odd_of_ts p (wc_e c) (wc_g c) (ok_e c OK) (ok_m c OK).
 
   Lemma w_sqrt_complete x y :
     w_on_curve (wc c) (Some (x, y)) = true -> 0 <= y < p ->
     exists s, wc_sqrt c (wc_rhs c x) = Some s /\ (s = y \/ s = negm p y).
   Proof.
     intros Hc Hy. rewrite (on_curve_rhs c x y Hc). fold p.
-    destruct (ts_sqrt_complete p (wc_e c) (wc_rou c) (ok_prime c OK) (ok_e c OK) (ok_m c OK) (ok_g c OK) (ok_rou c OK) y Hy)
+    destruct (ts_sqrt_complete p (wc_e c) (wc_g c) (wc_rou c) (ok_prime c OK) (ok_e c OK) (ok_m c OK) (ok_g c OK) (ok_rou c OK) y Hy)
       as [s Hs].
     exists s. unfold wc_sqrt. fold p. split; [exact Hs|].
     assert (Hp0 : 0 < p) by lia.
-    pose proof (ts_sqrt_range p _ _ _ _ Hp0 Hs) as Hr. apply ts_sqrt_sound in Hs.
+    pose proof (ts_sqrt_range p _ _ _ _ _ Hp0 Hs) as Hr. apply ts_sqrt_sound in Hs.
     apply prime_sq_eq; try assumption; [exact (ok_prime c OK)|].
     unfold eqm. unfold mulm in Hs. rewrite Hs. apply Zmod_mod.
   Qed.
@@ -1562,7 +1581,7 @@ Proof.
 Qed.
 
 Definition toy_codec : wcodec :=
-  mk_wcodec (mk_wparams 11 0 7 5 0 12 1) 1 10 1.    (* y^2 = x^3 + 7 over F_11, 12 points *)
+  mk_wcodec (mk_wparams 11 0 7 5 0 12 1) 1 2 10 1.    (* y^2 = x^3 + 7 over F_11, 12 points *)
 
 Lemma toy_codec_ok : wcodec_ok toy_codec.
 Proof. codec_ok prime_11. Qed.
